@@ -14,8 +14,9 @@ func init() {
 }
 
 // corpusCmd turns a Go fuzzing corpus directory into vectors:  harness corpus <dir> <kind> <out.ndjson>
-//   kind ar      -> {"k":"arraw","bytes":…}          kind deb -> {"k":"debbytes","bytes":…}
-//   kind parsers -> {"k":"seq","entry":…,"input":…}
+//
+//	kind ar      -> {"k":"arraw","bytes":…}          kind deb -> {"k":"debbytes","bytes":…}
+//	kind parsers -> {"k":"seq","entry":…,"input":…}
 func corpusCmd(args []string) {
 	if len(args) != 3 {
 		die("usage: harness corpus <dir> <kind> <out>")
